@@ -23,13 +23,14 @@ PERIOD, LIFE = 0.5, 1.0
 
 
 class Reconnect(Scenario):
-    def __init__(self, cause, trigger, rounds=1, alts=(), modes=('Q',), lease=False, flavour='tcp', gate=False, channel=False):
+    def __init__(self, cause, trigger, rounds=1, alts=(), modes=('Q',), lease=False, flavour='tcp', gate=False, channel=False, slow_close=False):
         self.name = 'reconnect'
         self.cause, self.trigger, self.rounds, self.lease = cause, trigger, rounds, lease
         self.flavour = flavour
+        self.slow_close = slow_close  # the application's on_close keeps awaiting (clean-up work) after asking for the reconnect
         self.channel = channel  # a channel whose local publisher still has credit is open when the connection ends
         self.gate = gate  # connect() of every later transport suspends until the explorer lets it finish
-        self.params = {'cause': cause, 'trigger': trigger, 'rounds': rounds, 'alts': list(alts), 'modes': list(modes), 'lease': lease, 'flavour': flavour, 'gate': gate, 'channel': channel}
+        self.params = {'cause': cause, 'trigger': trigger, 'rounds': rounds, 'alts': list(alts), 'modes': list(modes), 'lease': lease, 'flavour': flavour, 'gate': gate, 'channel': channel, 'slow_close': slow_close}
         self.world_kw = {'alts': alts, 'modes': modes, 'fault_budget': rounds if cause != 'healthy' else 0, 'horizon': 2.0 * rounds + 1.6, 'step_cap': 900}
 
     def setup(self, w):
@@ -59,12 +60,33 @@ class Reconnect(Scenario):
                 start_server(w, c, s_beh(i))
         trig = self.trigger
 
+        close_gates = w.objs['close_gates'] = []
+
         def on_close(h, rsocket):
             w.objs['closes'] = w.objs.get('closes', 0) + 1
-            if trig == 'on_close' and w.objs.get('reconnects', 0) < self.rounds:
+            want = trig == 'on_close' and w.objs.get('reconnects', 0) < self.rounds
+            if want:
                 w.objs['reconnects'] = w.objs.get('reconnects', 0) + 1
                 w.logev(('reconnect-requested', 'on_close'))
+            if self.slow_close:
+                async def slow():
+                    if want:
+                        await rsocket.reconnect()
+                    g = w.loop.create_future()
+                    close_gates.append(g)
+                    await g  # clean-up work that finishes only when the explorer lets it
+
+                return slow()
+            if want:
                 return rsocket.reconnect()
+
+        if self.slow_close:
+            def release(w):
+                for g in close_gates:
+                    if not g.done():
+                        g.set_result(None)
+
+            w.add_actor('closedone', [Step('on_close-finishes%d' % i, release, guard=lambda w: any(not g.done() for g in close_gates)) for i in range(self.rounds + 1)])
 
         def on_timeout(h, rsocket):
             if trig == 'on_timeout' and w.objs.get('reconnects', 0) < self.rounds:
@@ -243,6 +265,13 @@ def make_units(tier):
         K = 4
         for k in range(K):
             units.append({'cause': cause, 'trigger': trig, 'rounds': 1, 'bound': 1, 'shard': [k, K], 'alts': [], 'gate': True})
+    # the application's on_close handler is still busy (awaiting) while the reconnect is carried out
+    for cause, trig in COMBOS:
+        if cause in ('healthy', 'mute'):
+            continue
+        K = 4
+        for k in range(K):
+            units.append({'cause': cause, 'trigger': trig, 'rounds': 1, 'bound': 1, 'shard': [k, K], 'alts': [], 'slow_close': True})
     # a channel whose requester-side publisher still has credit when the connection ends; the application goes on emitting after the
     # reconnect unless its publisher was cancelled
     for cause, trig in COMBOS:
@@ -269,7 +298,7 @@ def bounds(tier):
 
 
 def scenario_of(unit):
-    return Reconnect(unit['cause'], unit['trigger'], unit['rounds'], alts=tuple(unit['alts']), lease=unit.get('lease', False), flavour=unit.get('flavour', 'tcp'), gate=unit.get('gate', False), channel=unit.get('channel', False))
+    return Reconnect(unit['cause'], unit['trigger'], unit['rounds'], alts=tuple(unit['alts']), lease=unit.get('lease', False), flavour=unit.get('flavour', 'tcp'), gate=unit.get('gate', False), channel=unit.get('channel', False), slow_close=unit.get('slow_close', False))
 
 
 def run_unit(unit, part):
@@ -277,7 +306,7 @@ def run_unit(unit, part):
 
 
 def scenario_from(name, params):
-    return Reconnect(params['cause'], params['trigger'], params['rounds'], tuple(params['alts']), tuple(params['modes']), params.get('lease', False), params.get('flavour', 'tcp'), params.get('gate', False), params.get('channel', False))
+    return Reconnect(params['cause'], params['trigger'], params['rounds'], tuple(params['alts']), tuple(params['modes']), params.get('lease', False), params.get('flavour', 'tcp'), params.get('gate', False), params.get('channel', False), params.get('slow_close', False))
 
 
 def replay(rec):
